@@ -214,6 +214,10 @@ where
         {
             rule_names.push((k.clone(), *name_span));
         }
+        // The start rule (and, for Eco, the implicit rules) added above also have to fit.
+        if rule_names.len() > num_traits::cast(StorageT::max_value()).unwrap() {
+            panic!("StorageT is not big enough to store this grammar's rules.");
+        }
         let mut rules_prods: Vec<Vec<PIdx<StorageT>>> = Vec::with_capacity(rule_names.len());
         let mut rule_map = HashMap::<String, RIdx<StorageT>>::new();
         for (i, (v, _)) in rule_names.iter().enumerate() {
@@ -235,6 +239,10 @@ where
         token_names.push(None);
         token_precs.push(None);
         token_epp.push(None);
+        // The EOF token added above also has to fit.
+        if token_names.len() > num_traits::cast(StorageT::max_value()).unwrap() {
+            panic!("StorageT is not big enough to store this grammar's tokens.");
+        }
         let mut token_map = HashMap::<String, TIdx<StorageT>>::new();
         for (i, v) in token_names.iter().enumerate() {
             if let Some((_, n)) = v.as_ref() {
@@ -332,6 +340,12 @@ where
                         }
                     };
                 }
+                // Eco's implicit rule can make a production longer than its AST counterpart.
+                if prod.len() > num_traits::cast(StorageT::max_value()).unwrap() {
+                    panic!(
+                        "StorageT is not big enough to store the symbols of at least one of this grammar's productions."
+                    );
+                }
                 let mut prec = None;
                 if let Some(ref n) = astprod.precedence {
                     prec = Some(ast.precs[n]);
@@ -354,6 +368,12 @@ where
                     action_spans[pidx] = Some(*span);
                 }
             }
+        }
+
+        // The start production (and, for Eco, the implicit productions) added above also have to
+        // fit.
+        if prods.len() > num_traits::cast(StorageT::max_value()).unwrap() {
+            panic!("StorageT is not big enough to store this grammar's productions.");
         }
 
         let avoid_insert = if let Some(ai) = &ast.avoid_insert {
